@@ -137,3 +137,21 @@ Example C15_oracle_rejects_wrong_victim :
      (RSet true None, [(2, 20, false); (1, 10, true)]);
      (RSet true (Some 2), [(3, 30, false); (1, 10, true)])]) = true.
 Proof. vm_compute. split; reflexivity. Qed.
+
+(* long runs at large capacities are observed sparsely (every return value, the resident list at the
+   end only): when the correspondence finds no disagreement, what the implementation returned at every
+   step IS `snd (lru_step (reach c prefix) op)` of the theorems above (refusal iff full of dirty,
+   victim = least recently used clean entry, ...) *)
+Theorem C15_sparse_agreement_is_exact : forall c ops outs fin,
+  model_agrees_sparse (c, ops, outs, fin) = true ->
+  outs = snd (lru_run (lru_init c) ops) /\ fin = resident (fst (lru_run (lru_init c) ops)).
+Proof. exact sparse_agreement_exact. Qed.
+Print Assumptions C15_sparse_agreement_is_exact.
+
+Example C15_sparse_nonvacuous :
+  model_agrees_sparse (2%nat, [OSet 1 10 true; OSet 2 20 false; OSet 3 30 false; OSet 4 40 true; OSet 5 50 false],
+                       [RSet true None; RSet true None; RSet true (Some 2%N); RSet true (Some 3%N); RSet false None],
+                       [(4, 40, true); (1, 10, true)]%N) = true /\
+  model_agrees_sparse (2%nat, [OSet 1 10 true; OSet 2 20 false; OSet 3 30 false],
+                       [RSet true None; RSet true None; RSet false None], [(2, 20, false); (1, 10, true)]%N) = false.
+Proof. vm_compute. split; reflexivity. Qed.
